@@ -25,3 +25,8 @@ def jobs(tier):
 
 ASSUMPTIONS = ['S1 numpy shim', 'S2 exact arithmetic; multifit binary search in exact rationals (denominators k*2^j)', 'OPT from the expansion oracle']
 OUTSIDE = ['planted large instances (hundreds of items)', 'more than 5 items (quick) / 7 (thorough)', 'multifit default 10 iterations beyond (3,2)/(4,2) non-increasing input']
+
+
+def post(tier, rc):
+    from .core import crosshair_post
+    return crosshair_post('C08', ['greedy_gap_at_most_largest_item', 'roundrobin_cardinalities'], tier, rc)
